@@ -224,6 +224,15 @@ def cond_constraints(c):
     a, b = sp.sympify(c.a), sp.sympify(c.b)
     r = c.rel()
     try:
+        fm.lin(a - b)
+    except fm.NonLinear:
+        # both sides multiples of the element size (>= 1): compare the quotients
+        for g in list((a - b).free_symbols):
+            if str(g) == 'siz_':
+                qd = divide(a - b, g)
+                if qd is not None:
+                    a, b = qd, sp.Integer(0)
+    try:
         if r == '<':
             return [[fm.lt(a, b)]]
         if r == '<=':
@@ -252,7 +261,7 @@ def divide(e, siz):
     return sp.expand(q)
 
 
-def cases_of(dom, leaf, base_facts, extra=()):
+def cases_of(dom, leaf, base_facts, extra=(), extra_terms=()):
     """-> list of Case (feasible combinations of path-condition disjuncts and wrap assignments), or raises Unsupported"""
     alts = [[]]
     for c in leaf.pc:
@@ -266,6 +275,8 @@ def cases_of(dom, leaf, base_facts, extra=()):
     syms = set()
     for t in used_terms(leaf):
         syms |= t.free_symbols
+    for t in extra_terms:
+        syms |= sp.sympify(t).free_symbols
     facts = list(dom.facts or [])
     wrapv = {k: v for k, v in dom.wraps}
     rel = []
@@ -417,3 +428,350 @@ def witness(case, goal, syms):
     for c in cons:
         live |= set(k for k in c if k != 1)
     return fm.model(cons, live)
+
+
+# ---------------------------------------------------------------- loop summaries (affine closed forms + Houdini bounds)
+class LoopSummary:
+    """hook for symx.Interp: a natural loop (no nesting) reached for the first time is replaced by
+         * a closed form  v = init + step * t  (t a fresh iteration number >= 0) for every header phi and every container field written in
+           the loop whose one-iteration step is loop-invariant on all back edges (discovered by one run with the values havocked),
+         * a havocked value with the surviving candidate bounds  v >= init / v <= init  (Houdini) for the others,
+       and ONE abstract iteration from that state: paths that return from the function (including the continuation behind the loop exit
+       at iteration t) are ordinary leaves; paths that come back to the header are *iteration leaves* carrying the effects of the body and the
+       inductiveness obligations of the closed forms (collected in interp.loop_leaves for the caller's obligation checker)."""
+
+    def __init__(self, facts0, fields):
+        self.facts0 = facts0
+        self.fields = fields       # {(base, off)} container fields that may be written in loops
+        self.notes = []
+
+    def cells_written(self, it, fn, s, body):
+        cells = []
+        for b in body:
+            for ins in b.instrs:
+                if ins.op != 'store':
+                    continue
+                g = fn.defs.get(ins.ops[1].v) if ins.ops[1].k == 'reg' else None
+                if g is not None and g.op == 'gep' and g.ops[0].k == 'reg' and any(pn == g.ops[0].v for pt, pn in fn.params) and all(o.k == 'int' for o in g.ops[1:]):
+                    try:
+                        p = it.gep(it.val(g.ops[0], s, fn), g.x['bt'], [(o.ty, it.val(o, s, fn)) for o in g.ops[1:]], fn.module.structs)
+                    except Exception:
+                        return None
+                    key = (p.base, it.dom.off_key(p.off))
+                    if key not in cells:
+                        cells.append((key, ins.ops[0].ty))
+        return cells
+
+    def region(self, it, fn, hdr, s1, env, depth):
+        it._active = getattr(it, '_active', [])
+        it._active.append(hdr)
+        ro = []
+        try:
+            rets = it._run_fn(fn, [], s1, depth, start=hdr, prev0=None, stops={hdr}, env0=env, region_out=ro)
+        finally:
+            it._active.pop()
+        return ro, rets
+
+    def __call__(self, it, fn, s, hdr, prev, depth):
+        d = it.dom
+        loops = [l for l in fn.loops() if l[0] is hdr]
+        if not loops:
+            return None
+        header, body, latches = loops[0]
+        if any(h2 is not hdr and h2 in body for h2, _, _ in fn.loops()):
+            return None
+        phis = [i for i in hdr.instrs if i.op == 'phi']
+        try:
+            init = {p.res: it.val(p.ops[p.x['labels'].index(prev.name)], s, fn) for p in phis}
+        except Exception:
+            return None
+        cells = self.cells_written(it, fn, s, body)
+        if cells is None:
+            return None
+        cinit = {}
+        for key, ty in cells:
+            if key in s.store:
+                cinit[key] = s.store[key][0]
+            else:
+                cinit[key] = it.load(Ptr(key[0], key[1]), ty, s)
+        for v in list(init.values()) + list(cinit.values()):
+            if v is TOP or isinstance(v, (alg.Cond, alg.BoolOp, tuple, list)):
+                return None
+
+        def make(values_phi, values_cell):
+            s1 = s.clone()
+            env = dict(s.env)
+            for p in phis:
+                env[p.res] = values_phi[p.res]
+            for key, ty in cells:
+                s1.store[key] = (values_cell[key], ty)
+            return s1, env
+        # ---- phase 1: havoc, discover invariant steps
+        hp, hc = {}, {}
+        for p in phis:
+            v = init[p.res]
+            h = d.fresh('h')
+            hp[p.res] = Ptr(v.base, h) if isinstance(v, Ptr) else h
+        for key, ty in cells:
+            hc[key] = d.fresh('h', nonnegative=True)
+        s1, env = make(hp, hc)
+        try:
+            ro, rets = self.region(it, fn, hdr, s1, env, depth)
+        except Unsupported:
+            return None
+        hs = set()
+        for v in list(hp.values()) + list(hc.values()):
+            hs |= (sp.sympify(v.off).free_symbols if isinstance(v, Ptr) else sp.sympify(v).free_symbols)
+
+        def delta(new, old):
+            if isinstance(old, Ptr):
+                if not isinstance(new, Ptr) or new.base != old.base:
+                    return None
+                return sp.expand(d.strip_wrap(sp.sympify(new.off) - sp.sympify(old.off)))
+            if isinstance(new, Ptr) or new is TOP or new is None:
+                return None
+            try:
+                return sp.expand(d.strip_wrap(sp.sympify(new) - sp.sympify(old)))
+            except Exception:
+                return None
+        steps_p, steps_c = {}, {}
+        for p in phis:
+            st_ = set()
+            for sb, blk, pb in ro:
+                nv = it.val(p.ops[p.x['labels'].index(pb.name)], sb, fn)
+                dl = delta(nv, hp[p.res])
+                st_.add(dl)
+            if len(st_) == 1 and None not in st_ and not (list(st_)[0].free_symbols & hs) and ro:
+                steps_p[p.res] = list(st_)[0]
+        for key, ty in cells:
+            st_ = set()
+            for sb, blk, pb in ro:
+                nv = sb.store[key][0] if key in sb.store else None
+                st_.add(delta(nv, hc[key]))
+            if len(st_) == 1 and None not in st_ and not (list(st_)[0].free_symbols & hs) and ro:
+                steps_c[key] = list(st_)[0]
+        # a value that keeps a constant distance to an affine one is affine itself (ptr = cur - siz in the bubble loops)
+        changed = True
+        while changed:
+            changed = False
+            for q in phis:
+                if q.res in steps_p:
+                    continue
+                for p in phis:
+                    if p.res not in steps_p or q.ty != p.ty:
+                        continue
+                    vq, vp_ = init[q.res], init[p.res]
+                    if isinstance(vq, Ptr) != isinstance(vp_, Ptr) or (isinstance(vq, Ptr) and vq.base != vp_.base):
+                        continue
+                    c0 = sp.expand(d.strip_wrap((sp.sympify(vq.off) - sp.sympify(vp_.off)) if isinstance(vq, Ptr) else (sp.sympify(vq) - sp.sympify(vp_))))
+                    hq = hp[q.res].off if isinstance(hp[q.res], Ptr) else hp[q.res]
+                    hpp = hp[p.res].off if isinstance(hp[p.res], Ptr) else hp[p.res]
+                    ok = bool(ro)
+                    for sb, blk, pb in ro:
+                        nq = it.val(q.ops[q.x['labels'].index(pb.name)], sb, fn)
+                        if isinstance(nq, Ptr) != isinstance(vq, Ptr) or nq is TOP or nq is None or (isinstance(nq, Ptr) and nq.base != vq.base):
+                            ok = False
+                            break
+                        e = sp.sympify(nq.off) if isinstance(nq, Ptr) else sp.sympify(nq)
+                        e = sp.expand(d.strip_wrap(e).subs(hq, hpp + c0))
+                        if sp.expand(e - (hpp + steps_p[p.res]) - c0) != 0:
+                            ok = False
+                            break
+                    if ok:
+                        steps_p[q.res] = steps_p[p.res]
+                        changed = True
+                        break
+        # the same for a field that keeps a constant distance to an affine counter (num_ = i + 1 in the trim loops)
+        for key, ty in cells:
+            if key in steps_c:
+                continue
+            for p in phis:
+                if p.res not in steps_p or isinstance(init[p.res], Ptr) or isinstance(cinit[key], Ptr):
+                    continue
+                try:
+                    c0 = sp.expand(d.strip_wrap(sp.sympify(cinit[key]) - sp.sympify(init[p.res])))
+                except Exception:
+                    continue
+                ok = bool(ro)
+                for sb, blk, pb in ro:
+                    nv = sb.store[key][0] if key in sb.store else None
+                    if nv is None or isinstance(nv, Ptr) or nv is TOP:
+                        ok = False
+                        break
+                    e = sp.expand(d.strip_wrap(sp.sympify(nv)).subs(hc[key], hp[p.res] + c0))
+                    if sp.expand(e - (hp[p.res] + steps_p[p.res]) - c0) != 0:
+                        ok = False
+                        break
+                if ok:
+                    steps_c[key] = steps_p[p.res]
+                    break
+        # ---- phase 2: closed forms in the iteration number t, Houdini bounds for the rest
+        t = d.fresh('t', nonnegative=True)
+        vp, vc = {}, {}
+        cand = []     # (symbol, init, 'ge'|'le')
+        for p in phis:
+            v = init[p.res]
+            if p.res in steps_p:
+                stp = steps_p[p.res]
+                if isinstance(v, Ptr):
+                    vp[p.res] = Ptr(v.base, sp.expand(sp.sympify(v.off) + stp * t))
+                else:
+                    vp[p.res] = sp.expand(sp.sympify(v) + stp * t)      # exact; switched to the modular form below if not inductive
+            else:
+                h = d.fresh('h')
+                vp[p.res] = Ptr(v.base, h) if isinstance(v, Ptr) else h
+                if not isinstance(v, Ptr) and p.ty.is_int:
+                    cand += [(p.res, h, sp.sympify(v), 'ge'), (p.res, h, sp.sympify(v), 'le')]
+        for key, ty in cells:
+            if key in steps_c:
+                vc[key] = sp.expand(sp.sympify(cinit[key]) + steps_c[key] * t)
+            else:
+                vc[key] = d.fresh('h', nonnegative=True)
+        base_facts_len = len(d.facts)
+        tbound = None
+        modular = set()
+
+        def exact_ok(sb, new, want):
+            lf_ = symx.Leaf(sb.pc, None, sb.store, {}, [], sb.trace, sb.pc_raw, sb.offs, None, sb.reads)
+            try:
+                for cs in cases_of(d, lf_, self.facts0, extra_terms=[new, want]):
+                    if not prove(cs, [fm.le(new, want), fm.le(want, new)])[0]:
+                        return False
+            except (Unsupported, fm.NonLinear):
+                return False
+            return True
+        for rnd in range(7):
+            del d.facts[base_facts_len:]
+            if tbound is not None:
+                d.facts.append(fm.le(t, tbound))
+            for _, h, v0, kind in cand:
+                try:
+                    d.facts.append(fm.le(v0, h) if kind == 'ge' else fm.le(h, v0))
+                except fm.NonLinear:
+                    pass
+            s2, env2 = make(vp, vc)
+            try:
+                ro2, rets2 = self.region(it, fn, hdr, s2, env2, depth)
+            except Unsupported:
+                del d.facts[base_facts_len:]
+                return None
+            # closed forms that are not exactly inductive (the counter wraps on its last step) are kept modulo 2^64
+            switched = False
+            for p in phis:
+                if p.res in steps_p and not isinstance(init[p.res], Ptr) and ('p', p.res) not in modular:
+                    for sb, blk, pb in ro2:
+                        nv = it.val(p.ops[p.x['labels'].index(pb.name)], sb, fn)
+                        if isinstance(nv, Ptr) or nv is TOP or not exact_ok(sb, sp.sympify(nv), sp.expand(vp[p.res] + steps_p[p.res])):
+                            kf = d.fresh('k')
+                            val = sp.expand(d.strip_wrap(sp.sympify(init[p.res])) + steps_p[p.res] * t + TWO64 * kf)
+                            d.wraps.append((kf, val))
+                            vp[p.res] = val
+                            modular.add(('p', p.res))
+                            switched = True
+                            break
+            for key, ty in cells:
+                if key in steps_c and ('c', key) not in modular:
+                    for sb, blk, pb in ro2:
+                        nv = sb.store[key][0] if key in sb.store else None
+                        if nv is None or isinstance(nv, Ptr) or nv is TOP or not exact_ok(sb, sp.sympify(nv), sp.expand(vc[key] + steps_c[key])):
+                            kf = d.fresh('k')
+                            val = sp.expand(d.strip_wrap(sp.sympify(cinit[key])) + steps_c[key] * t + TWO64 * kf)
+                            d.wraps.append((kf, val))
+                            vc[key] = val
+                            modular.add(('c', key))
+                            switched = True
+                            break
+            if switched:
+                continue
+            # Houdini: every candidate must hold for the next values on every back edge
+            keep = []
+            for (res, h, v0, kind) in cand:
+                ok = True
+                ph = [p for p in phis if p.res == res][0]
+                for sb, blk, pb in ro2:
+                    nv = it.val(ph.ops[ph.x['labels'].index(pb.name)], sb, fn)
+                    if isinstance(nv, Ptr) or nv is TOP:
+                        ok = False
+                        break
+                    lf = symx.Leaf(sb.pc, None, sb.store, {}, [], sb.trace, sb.pc_raw, sb.offs, None, sb.reads)
+                    lf.extra_terms = [sp.sympify(nv)]
+                    try:
+                        goal = fm.le(v0, nv) if kind == 'ge' else fm.le(nv, v0)
+                        for cs in cases_of(d, lf, self.facts0, extra_terms=[sp.sympify(nv), h]):
+                            if not prove(cs, [goal])[0]:
+                                ok = False
+                                break
+                    except (Unsupported, fm.NonLinear):
+                        ok = False
+                    if not ok:
+                        break
+                if ok:
+                    keep.append((res, h, v0, kind))
+            # a header test  v(t) != B  with v affine runs exactly T = (B - v(0)) / step times: t <= T at the header
+            newb = None
+            if tbound is None and ro2:
+                npc = [c_ for c_ in ro2[0][0].pc[len(s.pc):] if isinstance(c_, alg.Cond) and c_.rel() == '!=' and
+                       t in sp.sympify(c_.a - c_.b).free_symbols and not any(str(x).startswith(('cb', 'h', 'cmp')) for x in sp.sympify(c_.a - c_.b).free_symbols)]
+                for c in npc[:1]:
+                    e = sp.expand(d.strip_wrap(sp.sympify(c.a) - sp.sympify(c.b)))
+                    if t in e.free_symbols and sp.degree(e, t) == 1:
+                        c1, c0 = e.coeff(t, 1), e.coeff(t, 0)
+                        T = divide(-c0, c1) if not c1.is_Number else sp.expand(-c0 / c1)
+                        if T is not None and (not T.is_Number or T.is_Integer):
+                            lf0 = symx.Leaf(s.pc, None, s.store, {}, [], s.trace, s.pc_raw, s.offs, None, s.reads)
+                            try:
+                                okT = True
+                                for cs in cases_of(d, lf0, self.facts0, extra_terms=[T]):
+                                    if not prove(cs, [fm.le(0, T)])[0]:
+                                        okT = False
+                                if okT:
+                                    newb = T
+                            except (Unsupported, fm.NonLinear):
+                                pass
+            if newb is None and tbound is None and not getattr(self, '_ltdone', False) and ro2:
+                # header test  v(t) < B  (or >) with unit step: B - v(t) >= 0 holds at the header of every iteration
+                npc2 = [c_ for c_ in ro2[0][0].pc[len(s.pc):len(s.pc) + 1] if isinstance(c_, alg.Cond) and c_.rel() in ('<', '>')]
+                for c in npc2:
+                    e = sp.expand(d.strip_wrap((sp.sympify(c.b) - sp.sympify(c.a)) if c.rel() == '<' else (sp.sympify(c.a) - sp.sympify(c.b))))
+                    if t in e.free_symbols and sp.degree(e, t) == 1 and e.coeff(t, 1) == -1 and not any(str(x).startswith(('cb', 'h', 'cmp')) for x in e.free_symbols):
+                        e0 = e.coeff(t, 0)
+                        lf0 = symx.Leaf(s.pc, None, s.store, {}, [], s.trace, s.pc_raw, s.offs, None, s.reads)
+                        try:
+                            okT = all(prove(cs, [fm.le(0, e0)])[0] for cs in cases_of(d, lf0, self.facts0, extra_terms=[e0]))
+                            if okT:
+                                newb = e0
+                        except (Unsupported, fm.NonLinear):
+                            pass
+            if newb is not None:
+                tbound = newb
+                cand = keep
+                continue
+            if len(keep) == len(cand):
+                break
+            cand = keep
+        # ---- iteration leaves with their inductiveness obligations
+        leaves = getattr(it, 'loop_leaves', None)
+        if leaves is None:
+            leaves = it.loop_leaves = []
+        for sb, blk, pb in ro2:
+            obl = []
+            for p in phis:
+                if p.res in steps_p:
+                    nv = it.val(p.ops[p.x['labels'].index(pb.name)], sb, fn)
+                    want = vp[p.res]
+                    a_ = sp.sympify(nv.off) if isinstance(nv, Ptr) else sp.sympify(nv)
+                    b_ = (sp.sympify(want.off) if isinstance(want, Ptr) else sp.sympify(want)) + steps_p[p.res]
+                    if sp.expand(d.strip_wrap(a_) - d.strip_wrap(b_)) != 0:
+                        obl.append(('%%%s advances by %s per iteration' % (p.res, steps_p[p.res]), a_, sp.expand(b_)))
+            for key, ty in cells:
+                if key in steps_c:
+                    nv = sb.store[key][0]
+                    if sp.expand(d.strip_wrap(sp.sympify(nv)) - d.strip_wrap(vc[key] + steps_c[key])) != 0:
+                        obl.append(('field %s advances by %s per iteration' % (key[1], steps_c[key]), sp.sympify(nv), sp.expand(vc[key] + steps_c[key])))
+            lf = symx.Leaf(sb.pc, None, sb.store, {}, sb.calls, sb.trace, sb.pc_raw, sb.offs, None, sb.reads)
+            lf.loop_obligations = obl
+            lf.loop_header = hdr.name
+            leaves.append(lf)
+        self.notes.append('%s: loop at %s summarised (%d closed forms, %d bounded values, %d iteration paths)' % (
+            fn.name, hdr.name, len(steps_p) + len(steps_c), len(set(c[0] for c in cand)), len(ro2)))
+        return rets2
